@@ -59,6 +59,7 @@ def run(tier, seed):
     impl = run_engine(runner, lines)
     model = run_engine(driver_path(), lines) if lean["build_ok"] else {}
     standard_compare(res, cases, impl, model)
+    concurrent_pass(res, RUNNER, lines, cases, impl)
     # shrink the first few failing histories
     seen = set()
     for v in res.violations[:]:
